@@ -64,8 +64,21 @@ def rule_exits(ctx, repo):
     f = F.method(repo, "TDS", "run", TDS)
     inc = exit_inc_nodes(f)
     succ_true = [n for n in f.g.nodes() if f.g.data(n)["kind"] == "stmt" and Q.match("succeed = True", f.g.data(n)["ast"])]
+    # any other computed success value must itself imply `not busted and t == tf`
+    for n in f.assigns("succeed"):
+        a_ = f.g.data(n)["ast"]
+        if n in succ_true or Q.match("succeed = False", a_):
+            continue
+        txt = src(a_.value).replace(" ", "")
+        implies = ("notself.busted" in txt) and ("dae.t==self.config.tf" in txt or "dae.t==config.tf" in txt) and "or" not in txt
+        ctx.check(implies, "C17.success", "TDS.run/succeed-expr", "computed success flag implies not busted and t == tf",
+                  "success flag is computed as `%s`, which does not require `not self.busted`: an aborted run whose clock already "
+                  "shows tf is reported as success" % src(a_.value), f.W(n))
+        if implies:
+            succ_true.append(n)
     if not succ_true:
-        raise AnalysisError("TDS.run: `succeed = True` vanished")
+        ctx.violation("C17.success", "TDS.run/succeed", "no success assignment guarded by `not busted and t == tf` left in TDS.run", f.W())
+        return
     for r in f.returns():
         v = f.g.data(r)["ast"].value
         if src(v) == "self.initialized":
@@ -283,6 +296,32 @@ def _precheck_sound(repo):
     return True
 
 
+def rule_flag_reset(ctx, repo):
+    """a success flag from an earlier solve must not survive into the next one: reset before the Newton loop starts."""
+    r = F.method(repo, "PFlow", "run", PFLOW)
+    i = F.method(repo, "PFlow", "init", PFLOW)
+    n = F.method(repo, "PFlow", "nr_solve", PFLOW)
+    reset_in_init = [x for x in i.g.nodes() if i.g.data(x)["kind"] == "stmt" and Q.match("self.converged = False", i.g.data(x)["ast"])]
+    ok_init = bool(reset_in_init) and i.g.must_pass(i.g.entry, i.g.exit, reset_in_init)[0]
+    loops = [x for x in n.g.nodes() if n.g.data(x)["kind"] == "loop"]
+    reset_in_solve = [x for x in n.g.nodes() if n.g.data(x)["kind"] == "stmt" and Q.match("self.converged = False", n.g.data(x)["ast"])]
+    ok_solve = bool(loops and reset_in_solve) and n.before(reset_in_solve, loops)[0]
+    solve = r.calls("self.nr_solve") + r.calls("self.newton_krylov")
+    ok_order = bool(solve) and r.before(r.calls("self.init"), solve)[0]
+    ctx.check((ok_init and ok_order) or ok_solve, "C17.success", "PFlow.run/flag-reset",
+              "converged := False on every path before the Newton loop (in init(), which run() calls first)",
+              "PFlow.converged is not reset before a new solve: after one successful run a later diverged run still reports success "
+              "(nr_solve only ever sets the flag to True)", r.W())
+    s = F.method(repo, "ImplicitIter", "step", DAEINT)
+    loops = [x for x in s.g.nodes() if s.g.data(x)["kind"] == "loop"]
+    rs = [x for x in s.g.nodes() if s.g.data(x)["kind"] == "stmt" and Q.match("tds.converged = False", s.g.data(x)["ast"])]
+    ctx.check(bool(loops and rs) and s.before(rs, loops)[0], "C17.success", "ImplicitIter.step/flag-reset",
+              "tds.converged := False before each step's Newton loop", "step convergence flag is not reset before iterating", s.W())
+    t = F.method(repo, "TDS", "reset", TDS)
+    ok = Q.has("self.busted = False", t.fn) and Q.has("self.converged = False", t.fn)
+    ctx.check(ok, "C17.success", "TDS.reset/flags", "busted/converged cleared by reset", "TDS.reset no longer clears busted/converged", t.W())
+
+
 def rule_newton_exits(ctx, repo):
     # Newton-Krylov: success only in the non-exception branch
     f = F.method(repo, "PFlow", "newton_krylov", PFLOW)
@@ -324,6 +363,7 @@ def run(ctx):
     rule_exits(ctx, repo)
     rule_main(ctx, repo)
     rule_gating(ctx, repo)
+    rule_flag_reset(ctx, repo)
     rule_newton_exits(ctx, repo)
     # sentinel propagation: reuse the C16 sibling rules under this property's name
     before = len(ctx.results)
